@@ -311,6 +311,11 @@ class AsyncIOClient(ABC):
         """
         await asyncio.sleep(0.5)
         await self.connect()
+        while self._state == State.DISCONNECTED:
+            # connect() returned at once because another connect() call was running, and that one has given up since
+            # (cancelled by its caller, e.g. a timeout): keep trying, with the same minimum delay
+            await asyncio.sleep(0.5)
+            await self.connect()
         
     async def send(self, nmea2000Message: NMEA2000Message):
         """Send a NMEA2000 message to the gateway.
